@@ -97,10 +97,15 @@ func newC19Rig(proto string, nNames int, c int) (*c19Rig, error) {
 	if dynamicHostResolver != nil {
 		dynamicHostResolver.Stop()
 	}
-	r.res = &DynamicHostResolver{hostIPs: map[string]*AddressWithCallback{}}
+	// the product's constructor, stopped at once: its polling goroutine sees no
+	// host name in its first round and then sleeps for the (one hour) interval
+	r.res = NewDynamicHostResolver(3600)
+	r.res.Stop()
 	var urls []string
 	for _, name := range r.names {
-		r.res.hostIPs[name] = &AddressWithCallback{}
+		r.res.Lock()
+		r.res.hostIPs[name] = NewAddressWithCallback()
+		r.res.Unlock()
 		urls = append(urls, fmt.Sprintf("%s://%s:%d", proto, name, r.port))
 	}
 	dynamicHostResolver = r.res
